@@ -445,6 +445,98 @@ def known_method_regexes():
     return doc, gen
 
 
+def ob_float(method, timeout_ms):
+    """BUG HUNTING in binary64 (no claim on unsat/unknown): the interval computation executed bit-precisely with a symbolic
+    z >= 0, integral n in [1, 1e9] and p in [0, 1].  A path on which a square root is taken of a NEGATIVE float (CPython
+    returns a complex number there), or on which lower > upper, is asked for a model with a short budget; a model is
+    turned into (n, p, confidence) and replayed on the real function."""
+    from vf.pysym.values import SFP, FP64, fp_const, RNE
+    tally = Tally()
+    out = base_out("binary64 hunt (%s)" % method)
+    n = SFP(z3.FP("n_fp", FP64))
+    p = SFP(z3.FP("p_fp", FP64))
+    conf = SFP(z3.FP("conf_fp", FP64))
+    z = z3.FP("z_fp", FP64)
+    assume = [z3.fpGEQ(n.term, fp_const(1.0)), z3.fpLEQ(n.term, fp_const(1e9)),
+              n.term == z3.fpRoundToIntegral(z3.RNE(), n.term),
+              z3.fpGEQ(p.term, fp_const(0.0)), z3.fpLEQ(p.term, fp_const(1.0)),
+              z3.fpGT(conf.term, fp_const(0.0)), z3.fpLT(conf.term, fp_const(1.0)),
+              z3.fpGEQ(z, fp_const(0.0)), z3.fpLEQ(z, fp_const(40.0))]
+
+    def setup(it):
+        def probit_stub(ctx, interp, args, kwargs):
+            return SFP(z)
+        it.call_overrides["probit"] = probit_stub
+    try:
+        run = api.run(api.call_module_function(STATS, "confidence_interval", [n, p, conf, method]),
+                      opts={"float_mode": "fp", "prune": False}, assumptions=assume, setup=setup)
+    except Exception as e:
+        out["tally"] = tally
+        out["stubs"] = ["binary64 hunt not applicable: %s" % str(e)[:80]]
+        return out
+    absorb(out, run)
+    thorough = timeout_ms > 200000
+    budget = 300000 if thorough else 70000
+
+    def fpval(m, t):
+        v = m.eval(t, model_completion=True)
+        return float(eval(str(z3.simplify(z3.fpToReal(v))).replace("?", "")) ) if False else _fp_to_float(v)
+    for path in run.paths:
+        if not isinstance(path.outcome, Return):
+            continue
+        cplx = any(t == "complex-result" for t, _ in path.recorded)
+        extra = []
+        why = "the interval is complex: a square root of a negative binary64 radicand"
+        if not cplx and not thorough:
+            continue            # quick tier: only the negative-radicand paths are hunted
+        if not cplx:
+            val = path.outcome.value
+            if not (isinstance(val, tuple) and len(val) == 2 and isinstance(val[0], SFP) and isinstance(val[1], SFP)):
+                continue
+            extra = [z3.fpGT(val[0].term, val[1].term)]
+            why = "lower > upper in binary64"
+        # the general query is out of reach of bit-blasting within the budget (three symbolic multiplications): the hunt is
+        # steered to the corners where cancellation lives - p exactly 0 or 1, then the general case
+        r, m = "unknown", None
+        import time as _time
+        tiny = z3.fpLEQ(z, fp_const(2.0 ** -30))
+        corners = [[p.term == fp_const(1.0), tiny, n.term == fp_const(1.0)], [p.term == fp_const(0.0), tiny, n.term == fp_const(1.0)]]
+        if thorough:
+            corners += [[p.term == fp_const(1.0), tiny], [p.term == fp_const(0.0), tiny], [p.term == fp_const(1.0)], [p.term == fp_const(0.0)],
+                        [p.term == fp_const(1.0), n.term == fp_const(1e9)], []]
+        for corner in corners:
+            t0_ = _time.time()
+            r, m = common.check(tally, list(path.conds) + extra + corner, budget if corner else budget // 2, _retry=False,
+                                keep_sample=True, label="C18 binary64 hunt (%s): %s" % (method, why))
+            out.setdefault("timing", []).append((cplx, len(corner), r, round(_time.time() - t0_, 1)))
+            if r == "sat":
+                break
+        if r == "sat":
+            nv, pv, zv = _fp_to_float(m.eval(n.term, model_completion=True)), _fp_to_float(m.eval(p.term, model_completion=True)), \
+                _fp_to_float(m.eval(z, model_completion=True))
+            c = math.sqrt(math.pi / 8)
+            t = math.exp(-min(zv, 600.0) / c)
+            cv = 1 - 2 * (t / (1 + t))
+            cv = min(max(cv, 1e-300), 1 - 1e-16)
+            out["witnesses"].append({"kind": "ci", "n": int(nv), "p": pv, "confidence": cv, "method": method, "why": why,
+                                     "search_confidences": [1e-15, 1e-12, 1e-9, 1e-6, 1e-3, 0.5, 0.95, 1 - 1e-6, 1 - 1e-12],
+                                     "plain": "n=%d p=%r z=%r (confidence=%r)" % (int(nv), pv, zv, cv)})
+    out["tally"] = tally
+    return out
+
+
+def _fp_to_float(v):
+    import struct
+    try:
+        bits = (int(str(v.sign_as_bv().as_long())) << 63) | (v.exponent_as_long(True) << 52) | v.significand_as_long()
+        return struct.unpack(">d", struct.pack(">Q", bits))[0]
+    except Exception:
+        try:
+            return float(v.as_string())
+        except Exception:
+            return 0.0
+
+
 def ob_method(timeout_ms):
     tally = Tally()
     out = base_out("method dispatch")
@@ -518,6 +610,8 @@ def _dispatch(a):
         return ob_probit(a[1])
     if kind == "method":
         return ob_method(a[1])
+    if kind == "float":
+        return ob_float(a[1], a[2])
     raise ValueError(kind)
 
 
@@ -527,7 +621,7 @@ def main(tier):
     timeout_ms = 120000 if tier == "quick" else 900000
     items = [("probit", timeout_ms), ("method", timeout_ms)]
     for mth in ("agresti-coull", "wald"):
-        items += [("algebra", mth, timeout_ms), ("narrow", mth, timeout_ms), ("widen", mth, timeout_ms)]
+        items += [("algebra", mth, timeout_ms), ("narrow", mth, timeout_ms), ("widen", mth, timeout_ms), ("float", mth, timeout_ms)]
     results = common.pmap(_dispatch, items, chunksize=1)
     total = Tally()
     encoded, stubs = {}, set()
@@ -565,9 +659,11 @@ def main(tier):
         "functions_encoded": encoded,
         "stubs_used": sorted(stubs) + ["probit replaced by an arbitrary z >= 0 inside confidence_interval (lemma: probit >= 0)",
                                        "log axioms (strictly increasing, log 1 = 0, log(1/x) = -log x) instantiated on the terms used"],
-        "bounds": "all integers n >= 1, all reals 0 <= p <= 1, 0 < confidence < 1 (exact real arithmetic: binary64 rounding "
-                  "is outside the claim); NOT claimed: z is never smaller than the true normal quantile (needs bounds on the "
-                  "inverse normal CDF; no solver here decides it)",
+        "bounds": "all integers n >= 1, all reals 0 <= p <= 1, 0 < confidence < 1 in exact real arithmetic; 'z >= true normal "
+                  "quantile' only through z >= sqrt(pi/8)*|log(a/(1-a))| (solver) and the cited fact that this bound dominates the "
+                  "quantile; binary64: BUG HUNTING ONLY - the interval computation is also executed bit-precisely and paths taking "
+                  "the square root of a negative float are asked for a model at the corners p in {0, 1}, n = 1, tiny z (thorough: "
+                  "more corners and lower > upper) under a time budget; unsat or unknown there is NOT a claim",
     }
     common.write_evidence(PROP, "translation_validation", coverage,
                           ["floats are treated as reals", "math.log is strictly increasing with log 1 = 0 and log(1/x) = -log x",
